@@ -55,7 +55,10 @@ def proof_items():
             # how the result of a function without an element-wise MapSpec reaches the store: the entry of every output
             # name holds the value picked for it (what a resumed run finds and does not recompute)
             ProofItem(store.single_dump_single_output, gen=store.sdso_gen, registry=sreg),
-            ProofItem(store.dump_single_output, gen=store.dso_gen, registry=sreg)]
+            ProofItem(store.dump_single_output, gen=store.dso_gen, registry=sreg),
+            # ... and how it is read back: by a later function, and by a resumed run that decides what is already there
+            ProofItem(store.load_from_store, gen=store.lfs_gen, call=store.lfs_call,
+                      registry=lambda: {**{c.short: c for c in store.LOAD}, **{c.name: c for c in store.LOAD}})]
 
 
 def _run_child(job):
